@@ -42,7 +42,8 @@ def BOUNDS(tier):
             "bmp_escapes": "0000..FFFF x {lower, UPPER, Mixed}",
             "surrogate_pairs": "all 1 048 576" if tier == "thorough" else "4x1024 + 1024x4 boundary pairs",
             "two_char_escapes": 128, "sequence_items": len(ITEMS), "max_sequence": 3,
-            "quote_styles": 2, "positions": ["name selector", "comparison literal"]}
+            "quote_styles": 2, "positions": ["name selector", "comparison literal", "second name of a selection in a filter (sequences, escapes)",
+                                               "name in a function argument (sequences, escapes)"]}
 
 
 def cps(tier):
@@ -137,6 +138,12 @@ def check_literal(lit, position):
     exp = ref_decode(lit)
     if position == "name":
         query = "$[" + lit + "]"
+    elif position == "name2":
+        # second selector of a bracketed selection inside a filter query
+        query = "$[?@['zz', " + lit + "]]"
+    elif position == "arg":
+        # inside a function argument, after another argument-like comma
+        query = "$[?count(@[*, " + lit + "]) == 2]"
     else:
         query = "$[?@ == " + lit + "]"
     case = {"query": query, "position": position}
@@ -154,6 +161,12 @@ def check_literal(lit, position):
     if position == "name":
         doc = {exp: 1, exp + "x": 2, "zz": 3}
         want = [[[exp], 1]]
+    elif position == "name2":
+        doc = [{exp + "x": 1}, {exp: 2}, 0]
+        want = [[[1], impl.jsonable({exp: 2})]]
+    elif position == "arg":
+        doc = [{exp + "x": 1}, {exp: 2}, {exp: 1, exp + "y": 3, "k": 0}]
+        want = [[[1], impl.jsonable({exp: 2})]]
     else:
         doc = [exp + "x", exp, 0, None]
         want = [[[1], exp]]
@@ -168,7 +181,13 @@ def check_literal(lit, position):
 
 def check_case(case):
     q = case["query"]
-    lit = q[2:-1] if case["position"] == "name" else q[len("$[?@ == "):-1]
+    pos = case["position"]
+    if pos == "name2":
+        lit = q[len("$[?@['zz', "):-2]
+    elif pos == "arg":
+        lit = q[len("$[?count(@[*, "):-len("]) == 2]")]
+    else:
+        lit = q[2:-1] if pos == "name" else q[len("$[?@ == "):-1]
     return check_literal(lit, case["position"])
 
 
@@ -184,7 +203,8 @@ def run_shard(desc):
             if first is None:
                 first = lit
             sh.states += 1
-            for position in ("name", "cmp"):
+            extra = ("name2", "arg") if desc["space"] in ("seq", "ascii_escapes", "truncated", "pairs_boundary") else ()
+            for position in ("name", "cmp") + extra:
                 sh.transitions += 1
                 sh.traces += 1
                 sh.evaluations += 1
